@@ -83,6 +83,20 @@ func inList(ks []string, k string) bool {
 
 const reps = 4
 
+// withSpare re-houses s with extra slots of spare capacity behind its length, filled with fill
+// (a helper that consults cap where it means len, or reslices past the length, becomes observable).
+func withSpare[T any](s []T, extra int, fill T) []T {
+	if extra == 0 {
+		return s
+	}
+	out := make([]T, len(s), len(s)+extra)
+	copy(out, s)
+	for i, rest := 0, out[len(out):cap(out)]; i < len(rest); i++ {
+		rest[i] = fill
+	}
+	return out
+}
+
 func run(w *core.Worker, c Case) {
 	fail := func(sig, format string, a ...any) { w.Violation("c14."+c.Fn+"."+sig, fmt.Sprintf(format, a...)) }
 	nontrivial := len(c.M) >= 2 || len(c.Coll) >= 2 || len(c.C2) >= 1 || len(c.S1) >= 2
@@ -278,9 +292,10 @@ func run(w *core.Worker, c Case) {
 					}
 				}
 			case "PickOmit":
-				picked, err := gogu.Pick(m, c.Keys...)
+				keys := withSpare(c.Keys, rep%3, "a") // the spread key list carries spare capacity in the later repetitions
+				picked, err := gogu.Pick(m, keys...)
 				om := fresh(c.M, rep+1)
-				omitted := gogu.Omit(om, c.Keys...)
+				omitted := gogu.Omit(om, keys...)
 				if len(c.Keys) == 0 {
 					if len(picked) != 0 {
 						fail("Pick", "Pick(%v) with no keys = %v, %v", orig, picked, err)
@@ -309,7 +324,7 @@ func run(w *core.Worker, c Case) {
 					bad = true
 				}
 			case "Pluck":
-				coll := make([]map[string]int, len(c.Coll))
+				coll := withSpare(make([]map[string]int, len(c.Coll)), rep%3, map[string]int{"a": 77})
 				for i, x := range c.Coll {
 					coll[i] = fresh(x, rep)
 				}
@@ -325,7 +340,7 @@ func run(w *core.Worker, c Case) {
 					bad = true
 				}
 			case "FilterColl":
-				coll := make([]map[string]int, len(c.Coll))
+				coll := withSpare(make([]map[string]int, len(c.Coll)), rep%3, map[string]int{"a": 1, "b": 2})
 				for i, x := range c.Coll {
 					coll[i] = fresh(x, rep)
 				}
@@ -374,7 +389,7 @@ func run(w *core.Worker, c Case) {
 					bad = true
 				}
 			case "Filter2D":
-				got := gogu.Filter2DMapCollection(c.C2, func(x map[string]int) bool { _, ok := x["a"]; return ok })
+				got := gogu.Filter2DMapCollection(withSpare(c.C2, rep%3, map[string]map[string]int{"x": {"a": 1}}), func(x map[string]int) bool { _, ok := x["a"]; return ok })
 				var want []int
 				for i, x := range c.C2 {
 					for _, inner := range x {
@@ -404,7 +419,8 @@ func run(w *core.Worker, c Case) {
 				if len(c.S1) != len(c.S2) {
 					expectPanic = true
 				}
-				got := gogu.SliceToMap(c.S1, c.S2)
+				// equal lengths, unequal capacities in the later repetitions
+				got := gogu.SliceToMap(withSpare(c.S1, rep%3, "zz"), withSpare(c.S2, (rep/2)*3, -5))
 				if expectPanic {
 					fail("unequal-accepted", "SliceToMap(%v,%v)=%v: unequal lengths must be rejected", c.S1, c.S2, got)
 					bad = true
